@@ -206,6 +206,29 @@ def check_tree(R, d, tree, rng, tag):
                                                                        ref.astype(int).ravel().tolist()))
     except Exception as e:
         return ('exception:%s' % type(e).__name__, "%s: copy/get_mask raised %s: %s" % (tree.name(), type(e).__name__, e))
+    # other consumers of the selection (statistics, histograms of attributes with NaN/inf/non-positive values) evaluate it too: none of
+    # them may alter what the selection and its parts select afterwards
+    try:
+        import warnings
+        with warnings.catch_warnings():
+            warnings.simplefilter('ignore')
+            for cid in d.main_components:
+                vals = np.asarray(d[cid])
+                if vals.dtype.kind not in 'fi':
+                    continue
+                for kw in (dict(), dict(positive=True), dict(axis=0)):
+                    try:
+                        d.compute_statistic('sum', cid, subset_state=state, **kw)
+                    except Exception as e:
+                        return ('exception:%s' % type(e).__name__, "%s: compute_statistic raised %s: %s" % (tree.name(), type(e).__name__, e))
+                d.compute_histogram([cid], range=[[-10, 10]], bins=[4], subset_state=state)
+        for s, t in nodes:
+            for how, m in (('Data.get_mask', d.get_mask(s)), ('to_mask', s.to_mask(d)), ('to_mask(view=None)', s.to_mask(d, view=None))):
+                if not np.array_equal(np.asarray(m), t.ref()):
+                    return ('altered-by-evaluation', "%s: after the selection %s was evaluated and statistics and histograms were computed for it, %s gives %s, the element-wise reference is %s"
+                            % (t.name(), tree.name(), how, np.asarray(m).astype(int).ravel().tolist(), t.ref().astype(int).ravel().tolist()))
+    except Exception as e:
+        return ('exception:%s' % type(e).__name__, "%s: statistics/histogram of the selection raised %s: %s" % (tree.name(), type(e).__name__, e))
     # keyword/positional views: results must not depend on how the view is passed or on earlier evaluations with another view
     try:
         views = [tuple(slice(0, max(1, n - 1)) for n in d.shape), tuple(slice(1, None) for n in d.shape)]
